@@ -15,12 +15,16 @@ pub struct CCase {
     pub hdr_heap: bool,
     /// nfds == 0 only: send without any control message instead of an empty SCM_RIGHTS
     pub ctl_none: bool,
+    /// SO_PASSCRED on the receiving socket: the kernel puts an SCM_CREDENTIALS message (cmsg_len 28,
+    /// not a multiple of 8) in front of the SCM_RIGHTS message
+    pub passcred: bool,
 }
 
 impl CCase {
     fn to_json(&self) -> Value {
         json!({"phase": "cmsg", "op": "cmsg", "nfds": self.nfds, "buflen": self.buflen, "fill": self.fill,
-               "hdr": if self.hdr_heap { "heap" } else { "stack" }, "ctl": if self.ctl_none { "none" } else { "scm_rights" }})
+               "hdr": if self.hdr_heap { "heap" } else { "stack" }, "ctl": if self.ctl_none { "none" } else { "scm_rights" },
+               "rcv": if self.passcred { "so_passcred" } else { "plain" }})
     }
     fn from_json(v: &Value) -> Option<CCase> {
         Some(CCase {
@@ -29,6 +33,7 @@ impl CCase {
             fill: v["fill"].as_u64()? as u8,
             hdr_heap: v["hdr"].as_str()? == "heap",
             ctl_none: v["ctl"].as_str() == Some("none"),
+            passcred: v["rcv"].as_str() == Some("so_passcred"),
         })
     }
 }
@@ -84,6 +89,13 @@ unsafe fn child(case: &CCase, out: i32) {
         say(out, "result:{\"machinery\":\"socketpair failed\"}");
         return;
     }
+    if case.passcred {
+        let one: libc::c_int = 1;
+        if libc::setsockopt(sv[1], libc::SOL_SOCKET, libc::SO_PASSCRED, &one as *const _ as *const libc::c_void, 4) != 0 {
+            say(out, "result:{\"machinery\":\"setsockopt(SO_PASSCRED) failed\"}");
+            return;
+        }
+    }
     let mut originals: Vec<i32> = Vec::new();
     for i in 0..case.nfds {
         let name = std::ffi::CString::new(format!("h-net-{i}")).unwrap();
@@ -138,20 +150,31 @@ unsafe fn child(case: &CCase, out: i32) {
         return;
     }
 
-    // ---- reference parse (libc's macros, bounded by the length the kernel reported)
+    // ---- reference parse, by hand over the bytes the kernel reported (glibc-style CMSG_NXTHDR would drop a
+    //      last message whose aligned length exceeds msg_controllen, although the kernel delivered it)
     let mut ref_fds: Vec<i32> = Vec::new();
-    let mut c = libc::CMSG_FIRSTHDR(raw);
-    let mut guard = 0;
-    while !c.is_null() && guard < 16 {
-        guard += 1;
-        if (*c).cmsg_level == libc::SOL_SOCKET && (*c).cmsg_type == libc::SCM_RIGHTS {
-            let n = ((*c).cmsg_len as usize - 16) / 4;
-            let d = libc::CMSG_DATA(c) as *const i32;
-            for i in 0..n {
-                ref_fds.push(d.add(i).read_unaligned());
+    let mut others: Vec<(i32, i32, usize)> = Vec::new();
+    {
+        let base = (*raw).msg_control as *const u8;
+        let mut off = 0usize;
+        let mut guard = 0;
+        while !base.is_null() && off + 16 <= controllen_after && guard < 16 {
+            guard += 1;
+            let len = (base.add(off) as *const usize).read_unaligned();
+            let level = (base.add(off + 8) as *const i32).read_unaligned();
+            let ty = (base.add(off + 12) as *const i32).read_unaligned();
+            if len < 16 || off + len > controllen_after {
+                break;
             }
+            if level == libc::SOL_SOCKET && ty == libc::SCM_RIGHTS {
+                for i in 0..(len - 16) / 4 {
+                    ref_fds.push((base.add(off + 16 + 4 * i) as *const i32).read_unaligned());
+                }
+            } else {
+                others.push((level, ty, len));
+            }
+            off += (len + 7) & !7;
         }
-        c = libc::CMSG_NXTHDR(raw, c);
     }
 
     // ---- the repository's iterator
@@ -184,6 +207,7 @@ unsafe fn child(case: &CCase, out: i32) {
     let mut res = json!({
         "controllen_after": controllen_after, "ctrunc": flags & libc::MSG_CTRUNC != 0,
         "kernel_delivered": ref_fds.len(),
+        "other_messages": others.iter().map(|o| json!({"level": o.0, "type": o.1, "cmsg_len": o.2})).collect::<Vec<_>>(),
     });
     match it {
         Err(p) => {
@@ -258,12 +282,21 @@ pub fn run_case(case: &CCase) -> Verdict {
     unsafe { libc::waitpid(pid, &mut status, 0) };
     let stage = txt.lines().filter_map(|l| l.strip_prefix("stage:")).last().unwrap_or("?").to_string();
     let result: Option<Value> = txt.lines().filter_map(|l| l.strip_prefix("result:")).last().and_then(|s| serde_json::from_str(s).ok());
-    let k_expect = if case.ctl_none || case.buflen <= 16 { 0 } else { case.nfds.min((case.buflen - 16) / 4) };
+    // room left for SCM_RIGHTS after what SO_PASSCRED's SCM_CREDENTIALS message (cmsg_len 28, space 32) consumed
+    let room = if !case.passcred {
+        case.buflen
+    } else if case.buflen < 16 {
+        0
+    } else {
+        case.buflen - case.buflen.min(32)
+    };
+    let k_expect = if case.ctl_none || room <= 16 { 0 } else { case.nfds.min((room - 16) / 4) };
     let what = format!(
-        "{} descriptor(s) sent, control buffer of {} bytes (needed {}), pre-filled {:#04x}, msghdr on the {}",
+        "{} descriptor(s) sent, {}control buffer of {} bytes (needed {}), pre-filled {:#04x}, msghdr on the {}",
         case.nfds,
+        if case.passcred { "SO_PASSCRED on the receiver (SCM_CREDENTIALS, cmsg_len 28, precedes SCM_RIGHTS), " } else { "" },
         case.buflen,
-        needed(case.nfds),
+        needed(case.nfds) + if case.passcred { 32 } else { 0 },
         case.fill,
         if case.hdr_heap { "heap" } else { "stack" }
     );
@@ -299,7 +332,10 @@ pub fn run_case(case: &CCase) -> Verdict {
     }
     let kdel = res["kernel_delivered"].as_u64().unwrap_or(0) as usize;
     let truncated = kdel < case.nfds && !case.ctl_none;
-    if kdel != k_expect || res["kernel_sane"] != json!(true) || (truncated != (res["ctrunc"] == json!(true))) {
+    let n_other = res["other_messages"].as_array().map(|a| a.len()).unwrap_or(0);
+    let want_ctrunc = truncated || (case.passcred && case.buflen < 28);
+    let want_other = (case.passcred && case.buflen >= 16) as usize;
+    if kdel != k_expect || n_other != want_other || res["kernel_sane"] != json!(true) || (want_ctrunc != (res["ctrunc"] == json!(true))) {
         v.machinery = Some(format!("kernel behaved differently from the reference: delivered {kdel}, expected {k_expect}, detail {res}"));
         return v;
     }
@@ -319,11 +355,23 @@ pub fn run_case(case: &CCase) -> Verdict {
         return v;
     }
     if yielded.len() < kdel {
-        v.outcome = "fd-missing".into();
-        v.viol.push((
-            "C16:cmsg:fd-missing".into(),
-            format!("{what}: the kernel delivered {kdel} descriptor(s), the iterator yielded {} ({yielded:?})", yielded.len()),
-        ));
+        if n_other > 0 {
+            v.outcome = "fd-missing-after-other-message".into();
+            v.viol.push((
+                "C16:cmsg:fd-missing-after-other-message".into(),
+                format!(
+                    "{what}: the kernel wrote {} and then an SCM_RIGHTS message with {kdel} descriptor(s) (msg_controllen {}); the iterator yielded {} ({yielded:?}) — \
+                     the descriptors behind the first message are lost (and stay open in the receiver)",
+                    res["other_messages"], res["controllen_after"], yielded.len()
+                ),
+            ));
+        } else {
+            v.outcome = "fd-missing".into();
+            v.viol.push((
+                "C16:cmsg:fd-missing".into(),
+                format!("{what}: the kernel delivered {kdel} descriptor(s), the iterator yielded {} ({yielded:?})", yielded.len()),
+            ));
+        }
     } else if yielded.len() > kdel {
         let key = if truncated { "C16:cmsg:yields-truncated-fd" } else { "C16:cmsg:fd-wrong" };
         v.outcome = if truncated { "yields-truncated-fd".into() } else { "fd-extra".into() };
@@ -343,18 +391,25 @@ pub fn run_case(case: &CCase) -> Verdict {
             "delivered-exactly".into()
         };
     }
+    if case.passcred {
+        v.outcome.push_str(if n_other > 0 { "|creds-skipped" } else { "|creds-dropped-by-kernel" });
+    }
     v
 }
 
 fn all_cases(max_fds: usize) -> Vec<CCase> {
     let mut v = Vec::new();
-    for nfds in 0..=max_fds {
-        for buflen in 0..=needed(nfds) + 24 {
-            for fill in [0xFFu8, 0x00] {
-                for hdr_heap in [false, true] {
-                    v.push(CCase { nfds, buflen, fill, hdr_heap, ctl_none: false });
-                    if nfds == 0 {
-                        v.push(CCase { nfds, buflen, fill, hdr_heap, ctl_none: true });
+    // simplest first: plain receiver, then SO_PASSCRED (two control messages per recvmsg, the first of unaligned length)
+    for passcred in [false, true] {
+        for nfds in 0..=max_fds {
+            let top = needed(nfds) + if passcred { 32 } else { 0 } + 24;
+            for buflen in 0..=top {
+                for fill in [0xFFu8, 0x00] {
+                    for hdr_heap in [false, true] {
+                        v.push(CCase { nfds, buflen, fill, hdr_heap, ctl_none: false, passcred });
+                        if nfds == 0 {
+                            v.push(CCase { nfds, buflen, fill, hdr_heap, ctl_none: true, passcred });
+                        }
                     }
                 }
             }
@@ -403,9 +458,9 @@ pub fn phase(args: &Args) -> Report {
     let mut r = run_isolated(items, &args.out, "C16");
     r.rule = format!(
         "REAL kernel, no sampling: for every descriptor count 0..={max_fds} x every control-buffer size 0..=CMSG_SPACE(4n)+24 x pre-fill {{0xFF, 0x00}} x msghdr placement {{stack, heap}} \
-         (n = 0 also without any control message): n distinct memfds are sent over socketpair(AF_UNIX, SOCK_STREAM) with MsgHdrBorrow::create_send + rusl::network::sendmsg, received with \
+         (n = 0 also without any control message) x receiver option {{plain, SO_PASSCRED set on the receiving socket: the kernel then puts an SCM_CREDENTIALS message of the unaligned length 28 in front of the SCM_RIGHTS message, buffer sizes up to 32+CMSG_SPACE(4n)+24; the SCM_RIGHTS length 16+4n is itself 8-aligned for even n and not for odd n}}: n distinct memfds are sent over socketpair(AF_UNIX, SOCK_STREAM) with MsgHdrBorrow::create_send + rusl::network::sendmsg, received with \
          rusl::network::recvmsg into a control buffer whose 8-byte-aligned start lies so that it ends (rounded up to 8) at a PROT_NONE page, and walked with control_messages(); the yielded \
-         descriptors must equal what the kernel delivered (libc CMSG_* reference parse bounded by the returned msg_controllen; fstat (st_dev, st_ino) identity with the sent files); every case \
+         descriptors must equal what the kernel delivered (independent by-hand parse of the raw control bytes bounded by the returned msg_controllen, messages of other types must be skipped; fstat (st_dev, st_ino) identity with the sent files); every case \
          runs in its own forked process, a fault inside the guard page is 'reads outside the buffer'. Each case is generated once."
     );
     r.bound("max_fds", max_fds);
